@@ -246,13 +246,8 @@ variable {γ ι : Type}
 
 def subsetB (a b : List Name) : Bool := a.all (b.contains ·)
 
-/-- first occurrences, in order: the keys of `dict(partition(2, pairs))` in `methods.assign` -/
-def firstDedup : List Name → List Name
-  | [] => []
-  | x :: xs => x :: (firstDedup xs).filter (fun y => y != x)
-
 /-- labels of `assign(df, k1, v1, …)`: the frame's, then the new keys in first-occurrence order -/
-def assignCols (keys frame : List Name) : List Name := frame ++ (firstDedup keys).filter (fun k => !frame.contains k)
+def assignCols (keys frame : List Name) : List Name := assignLabels frame keys
 
 def Schema.name (s : Schema) : Name := s.cols.headD ""
 
